@@ -532,6 +532,33 @@ func cliCase(t *Table, cs CaseSpec, rng *rand.Rand) (events []interface{}) {
 		return fail("head", fmt.Errorf("no head after commit"), "")
 	}
 	events = append(events, ev)
+	// the same content through another delimiter (given on the command line) on another branch
+	{
+		ds := []rune{'\t', '|', ';', ' '}
+		d := ds[rng.Intn(len(ds))]
+		fp2, _ := r.WriteFile("data.alt", tbl.CSV(all, d))
+		args := []string{"commit", "alt", fp2, "alt", "-n", "3", "--delimiter", string(d)}
+		if len(t.PK) > 0 {
+			args = append(args, "-p", strings.Join(t.PK, ","))
+		}
+		if out, err := r.Run(nil, args...); err != nil {
+			return fail("commit-delimiter-"+delimName(d), err, out)
+		}
+		db, rs, closeFn, err := r.Open()
+		if err == nil {
+			if sum, err := ref.GetHead(rs, "alt"); err == nil {
+				if com, err := objects.GetCommit(db, sum); err == nil {
+					parsed, _ := parseCSV(tbl.CSV(all, 0), 0)
+					cfg := Cfg{Seed: cs.Seed, Variant: 201, Kind: "cli", Workers: 1, Cols: t.Cols, PK: t.PK, NRows: len(t.Rows), Delim: delimName(d)}
+					if cfg.PK == nil {
+						cfg.PK = []string{}
+					}
+					events = append(events, Project(t, parsed[1:], db, com.Table, nil, cfg))
+				}
+			}
+			closeFn()
+		}
+	}
 	// same content, other row order, other memory limit / workers
 	rows := append([][]string{}, t.Rows...)
 	rng.Shuffle(len(rows), func(i, j int) { rows[i], rows[j] = rows[j], rows[i] })
